@@ -31,6 +31,7 @@ type Anno struct {
 	Ref     string `json:"ref"` // ungapped reference, upper case
 	Feats   []Feat `json:"feats"`
 	Unsorted bool  `json:"features_not_in_ascending_order,omitempty"`
+	MaskedInCDS bool `json:"reference_masked_inside_cds,omitempty"`
 }
 
 // codingPositions: 1-based reference positions in translation order, after codon_start trimming.
@@ -471,6 +472,34 @@ func genAnno(t *rapid.T, o annoGenOpts) Anno {
 			}
 		}
 	}
+	// a masked base inside a gene: N at the third position of a four-fold degenerate codon (GCN, CTN, ...) of one feature, at a
+	// position no other feature covers - the reference still translates unambiguously, as both formats require
+	maskedInCDS := false
+	if o.iupacOutside && len(feats) > 0 && rapid.IntRange(0, 5).Draw(t, "maskedCodingBase") == 0 {
+		cov := make([]int, L+1)
+		for _, f := range feats {
+			for _, p := range f.allPositions() {
+				cov[p]++
+			}
+		}
+		f := feats[rapid.IntRange(0, len(feats)-1).Draw(t, "maskedFeature")]
+		cp := f.codingPositions()
+		if n := len(cp) / 3; n >= 3 {
+			k := rapid.IntRange(1, n-2).Draw(t, "maskedCodon")
+			sym := func(p int) byte {
+				if f.Strand < 0 {
+					return complementBase(ref[p-1])
+				}
+				return ref[p-1]
+			}
+			two := string([]byte{sym(cp[3*k]), sym(cp[3*k+1])})
+			if p3 := cp[3*k+2]; cov[p3] == 1 && strings.Contains("CT GT TC CC AC GC CG GG", two) && isACGT(ref[p3-1]) {
+				ref[p3-1] = 'N'
+				maskedInCDS = true
+			}
+		}
+	}
+	a.MaskedInCDS = maskedInCDS
 	// file order: usually ascending, but neither format mandates it (hand-curated GenBank tables list mature peptides after
 	// the ORFs, merged annotations append new features at the end) - one annotation in five lists its features in another order
 	if len(feats) > 1 && rapid.IntRange(0, 4).Draw(t, "fileOrder") == 0 {
@@ -486,6 +515,7 @@ func genAnno(t *rapid.T, o annoGenOpts) Anno {
 func labelAnno(a Anno, o *Obs) {
 	for i, f := range a.Feats {
 		o.LabelIf(a.Unsorted, "feat:file-order-not-ascending")
+		o.LabelIf(a.MaskedInCDS, "feat:reference-N-inside-cds")
 		o.LabelIf(f.Strand < 0, "feat:reverse")
 		o.LabelIf(len(f.Segs) > 1, "feat:joined")
 		o.LabelIf(f.Strand < 0 && len(f.Segs) > 1, "feat:reverse-joined")
